@@ -21,6 +21,18 @@ namespace vt
       } );
    }
 
+   template< typename Root, template< typename... > class Act, template< typename... > class Ctl, apply_mode A, rewind_mode M, tracking_mode T, typename Eol >
+   void run_strings_depth( const std::string& sigma, int maxlen, CaseCfg c = CaseCfg() )
+   {
+      g().fuel_cases = 0;
+      c.cls = 1;  // input_with_depth< memory_input >
+      for_all_strings( sigma, maxlen, [ & ]( const std::string& s ) {
+         if( g().fuel_cases < 3 ) {
+            run_memory_case< Root, Act, Ctl, A, M, T, Eol, depth_input >( c, s );
+         }
+      } );
+   }
+
    template< typename Eol >
    constexpr int eol_id()
    {
@@ -99,6 +111,15 @@ namespace vt
       run_strings< Root, fam3, tc_hid_uw, AA, MR, TL, LFCRLF >( sigma, maxlen );
       run_strings< Root, fam3, tc_full_uw, AA, MO, TE, LFCRLF >( sigma, maxlen );
       run_strings< Root, fam3, tc_full, AA, MR, TE, LFCRLF >( sigma, maxlen );
+   }
+
+   // limits (C18): action family 4 on input_with_depth< memory_input >
+   template< typename Root >
+   void cfgs_lim( const std::string& sigma, int maxlen )
+   {
+      run_strings_depth< Root, fam4, tc_full_uw, AA, MR, TE, LFCRLF >( sigma, maxlen );
+      run_strings_depth< Root, fam4, tc_hid, AN, MO, TL, LFCRLF >( sigma, maxlen );
+      run_strings_depth< Root, pegtl::nothing, tc_hid_uw, AA, MR, TE, LFCRLF >( sigma, maxlen );
    }
 
    // all five end-of-line policies, eager and lazy (C06)
